@@ -29,6 +29,14 @@ Theorem C02_dependency_complete_ir : forall E c c' ds, analyze_code_property_dep
 Proof. intros E c c' ds H. exact (proj1 (dependency_complete E c c' ds H)). Qed.
 Print Assumptions C02_dependency_complete_ir.
 
+(* second sentence of the property, at the level of the IR: the 'unobservable property' diagnostic (an error: the binding is not generated)
+   is raised EXACTLY when some block reads, through a pointer, a non-constant property that has no notify signal -- never missed on any
+   path, never raised for a binding all of whose reads can be observed *)
+Theorem C02_unobservable_reads_are_diagnosed : forall E c c' ds, analyze_code_property_dependency E c = Ok (c', ds) ->
+  (In PUnobservable ds <-> exists b st, In b (c_blocks c) /\ In st (b_stmts b) /\ unobservable_read E st = true).
+Proof. exact unobservable_diagnosed. Qed.
+Print Assumptions C02_unobservable_reads_are_diagnosed.
+
 (* the executable checker run on the IMPLEMENTATION's own IR dumps (vlib/c02.py, IR leg) decides exactly the coverage predicate, with signals
    identified by class, name and argument types (what the C++ connect is written from) *)
 Theorem C02_ir_checker_sound : forall E c, code_covered_b E c = true <->
